@@ -71,7 +71,7 @@ def pinned(f):
     return g
 
 
-DETERMINISTIC = {"retro:mergemin", "retro:mergetb", "retro:npl", "select:policy", "cli:select_next_plate"}
+DETERMINISTIC = {"retro:mergemin", "retro:mergetb", "retro:npl", "select:policy", "cli:select_next_plate", "mvn:sample_mvn_from_precision(singular)"}
 
 
 def build_ops(tmp, rnd):
@@ -139,6 +139,12 @@ def build_ops(tmp, rnd):
         ops["mvn:sample_mvn_from_precision(dim=%d)" % dim] = (
             lambda seed, Q=Q, b=b: np.ascontiguousarray(sample_mvn_from_precision(Q.copy(), mu_part=b.copy(), rng=np.random.default_rng(seed))).tobytes().hex(),
             "mvn-%d" % dim, None)
+    def mvn_singular(seed):
+        # a precision matrix that is not positive definite: whatever the function does with it (it refuses), it does it reproducibly
+        Qs = np.array([[1.0, 1.0], [1.0, 1.0]])
+        st, o = outcome(sample_mvn_from_precision, Qs, mu_part=np.array([1.0, 2.0]), rng=np.random.default_rng(seed))
+        return "refused" if st != "ok" else np.ascontiguousarray(o).tobytes().hex()
+    ops["mvn:sample_mvn_from_precision(singular)"] = (mvn_singular, "mvn-singular", None)
     # sampling.sample hands a generator to the model: a model that actually draws from it (the shipped Gibbs samplers do not: known finding)
     from harness.drivers.c17 import CountMCMC
 
@@ -240,9 +246,12 @@ def child_main():
     try:
         ops = build_ops(tmp, random.Random(int(sys.argv[2])))
         out = {}
+        warm = int(sys.argv[3]) if len(sys.argv) > 3 else 0
         for name, (f, indig, known) in sorted(ops.items()):
             if known:
                 continue
+            if warm:
+                outcome(f, 100 + warm)          # this process has already done the same operation with ANOTHER seed: no trace of it may remain
             st, o = outcome(f, 100)
             out[name] = [indig, o if st == "ok" else "raised:" + o]
         print("CHILD-RESULT " + json.dumps(out))
@@ -257,7 +266,7 @@ def across_processes(ctx, it):
     env = dict(os.environ)
     for hs in ("1", "2", "3") if ctx.quick else ("1", "2", "3", "4", "5", "6"):
         env["PYTHONHASHSEED"] = hs
-        p = subprocess.run([sys.executable, "-c", "import sys; sys.argv=['c', 'child', '%d']; from harness.drivers import c18; c18.child_main()" % ctx.seed],
+        p = subprocess.run([sys.executable, "-c", "import sys; sys.argv=['c', 'child', '%d', '%d']; from harness.drivers import c18; c18.child_main()" % (ctx.seed, int(hs) - 1)],
                            env=env, stdout=subprocess.PIPE, stderr=subprocess.DEVNULL, text=True, timeout=600)
         line = [l for l in p.stdout.splitlines() if l.startswith("CHILD-RESULT ")]
         if not line:
@@ -347,7 +356,7 @@ def run(ctx):
         ctx.extra["operations"] = sorted(ops)
         ctx.extra["output_changes_with_seed"] = changed
         inert = sorted(n for n, c in changed.items() if not c and n not in DETERMINISTIC)
-        if inert:
+        if inert and not ctx.violations:
             raise tlc.TLCError("vacuity guard: the output of %s never changed with the seed, its randomness was not exercised" % inert)
         ctx.sample({"operation": meta[0][0], "events": traces[0]["events"]})
     finally:
